@@ -93,7 +93,38 @@ func c13EvidenceProfile(r *core.Run) []*core.Violation {
 		return -1
 	}
 	submit := func(ev *c13Evidence, when string) {
-		res := w.Submit(replayer, &skywaytypes.MsgSubmitBadSignatureEvidence{Metadata: meta(replayer), Subject: ev.subject, Signature: ev.sig, ChainReferenceId: ev.chain})
+		subject := ev.subject
+		// whoever replays a confirmation is free to dress up every value of the subject that does not enter the
+		// checkpoint (the checkpoint the signature is over stays one the chain published)
+		if ev.genuine && t.Draw(3) == 0 {
+			var bt skywaytypes.OutgoingTxBatch
+			if err := bt.Unmarshal(ev.subject.Value); err == nil {
+				kind := t.Intn(6)
+				switch kind {
+				case 0:
+					bt.BytesToSign = []byte(fmt.Sprintf("%032d", t.Intn(1_000_000)))
+				case 1:
+					bt.BytesToSign = nil
+				case 2:
+					bt.BytesToSign = []byte{byte(1 + t.Intn(255))}
+				case 3:
+					bt.Assignee = w.Vals[t.Intn(len(w.Vals))].Acct.ValAddr().String()
+				case 4:
+					bt.PalomaBlockCreated += uint64(1 + t.Intn(1000))
+				default:
+					if len(bt.Transactions) > 0 {
+						bt.Transactions = append([]skywaytypes.OutgoingTransferTx(nil), bt.Transactions...)
+						bt.Transactions[0].Id += uint64(1 + t.Intn(50))
+						bt.Transactions[0].Sender = replayer.Bech32()
+					}
+				}
+				if dressed, err := codectypes.NewAnyWithValue(&bt); err == nil {
+					subject = dressed
+					r.Stats.Fault(fmt.Sprintf("evidence_subject_dressed_up_%d", kind))
+				}
+			}
+		}
+		res := w.Submit(replayer, &skywaytypes.MsgSubmitBadSignatureEvidence{Metadata: meta(replayer), Subject: subject, Signature: ev.sig, ChainReferenceId: ev.chain})
 		if res.Accepted() {
 			pending = append(pending, &c13Pending{ev, res.Tx, when})
 			ev.sentAt = append(ev.sentAt, w.N.Height)
